@@ -499,8 +499,17 @@ def b2mLoop (rm : List Nat) (bitToVar : List (String × MVar)) :
         -- `umap[u] = r`
         b2mLoop rm bitToVar rest mdd' ((u, r) :: umap.filter (fun p => p.1 ≠ u)) mb1
 
-/-- `bdd_to_mdd(bdd, dvars)`; `levRec` is the recorded order of `bdd.levels(...)` -/
-def bddToMdd (dvars : List MVar) (levRec : Option (List Nat)) : M B2MOut := do
+/-- what the first part of `bdd_to_mdd` hands to the main loop -/
+structure B2MPrep where
+  /-- BDD nodes referenced only from inside their zone (`rm`) -/
+  rm : List Nat
+  bitToVar : List (String × MVar)
+  /-- the node table after collection and reordering -/
+  tbl : Tbl
+
+/-- `bdd_to_mdd`, up to the main loop: target bit order, `collect_garbage`, `reorder`, zones,
+reverse edges, selection of the zone-entry nodes -/
+def b2mPrepare (dvars : List MVar) : M B2MPrep := do
   -- map from bits to integers (later entries of the dict update win)
   let bitToVar : List (String × MVar) := dvars.flatMap fun d => d.bits.map fun b => (b, d)
   -- find target bit order
@@ -516,8 +525,6 @@ def bddToMdd (dvars : List MVar) (levRec : Option (List Nat)) : M B2MOut := do
   let orderDict : List (String × Int) :=
     (dedup order.reverse).reverse.map fun b => (b, (((lastLookup b bitToSort).getD 0 : Nat) : Int))
   reorder (some orderDict)
-  -- BDD -> MDD
-  let mdd := MddMgr.new (some dvars)
   -- zones of bits per integer var
   let mut zones : List (String × Nat × Nat) := []
   for d in dvars do
@@ -551,9 +558,21 @@ def bddToMdd (dvars : List MVar) (levRec : Option (List Nat)) : M B2MOut := do
       let minPredLevel := ls.foldl min l0
       if minPredLevel < minLevel then continue
       rm := rm ++ [u]
-  -- build layer by layer
-  assertConsistent
-  let ord ← liftE (bddLevelsOrder t levRec)
-  b2mLoop rm bitToVar ord mdd [(1, 1)]
+  return ⟨rm, bitToVar, t⟩
+
+/-- `bdd_to_mdd(bdd, dvars)`; `levRec` is the recorded order of `bdd.levels(...)` -/
+def bddToMdd (dvars : List MVar) (levRec : Option (List Nat)) : M B2MOut := fun mb =>
+  match b2mPrepare dvars mb with
+  | (.error e, mb1) => (.error e, mb1)
+  | (.ok p, mb1) =>
+    -- build layer by layer
+    match assertConsistent mb1 with
+    | (.error e, mb2) => (.error e, mb2)
+    | (.ok _, mb2) =>
+      match bddLevelsOrder p.tbl levRec with
+      | .error e => (.error e, mb2)
+      | .ok ord =>
+        -- BDD -> MDD
+        b2mLoop p.rm p.bitToVar ord (MddMgr.new (some dvars)) [(1, 1)] mb2
 
 end DD
